@@ -143,6 +143,16 @@ CLAIMS = {
           'Tie: make_model_image on tables with rows inside / on the edge / far off the image (incl. row 0 off-image, windows ending exactly at the image edge), per-row model_shape (odd/even), local_bkg, name maps, unit-ful fluxes, 5 model families, compared pixel-wise with the Lean accumulation of the oracle values; reorder/split relations and input immutability on the implementation; PSFPhotometry model/residual images.',
   'note': 'Trusted: Lean kernel + standard axioms; AST extractor of the loop skeleton; astropy model evaluation; float accumulation order (1e-12).',
  },
+ 'C15': {
+  'design_ref': 'DESIGN.md §5 C15',
+  'technique': 'Lean 4 theorems for the unit-handling decision logic (process_quantities, calc_total_error) with float-conversion facts regenerated from the source + correspondence + representation sweep of 18 entry points x 12 representations on the implementation',
+  'text': 'Proved in Lean: process_quantities succeeds with unit u iff some input is present and every present input has unit u, mixing unit-ful with unit-less inputs or two different units is rejected, the decision is independent of the order of the inputs and the numbers are returned unchanged (process_ok_iff, mixing_rejected, different_units_rejected, process_perm, stripped_payload); '
+          'calc_total_error accepts units on all three inputs or none, data and bkg_error share the unit of the result, and the value is >= the background error, equal to it where data <= 0 or gain = 0, monotone in the data; negative gain is rejected (total_error_unit_ok_iff, total_error_bounds, total_error_mono, negative_gain_rejected); '
+          'the float conversions that precede in-place arithmetic (calc_total_error, _filter_data, Background2D, SourceCatalog and ApertureStats cut-outs, centroid_quadratic) and the skeleton of process_quantities are facts regenerated from the source each run (Gen/FloatGuards.lean, float_guards). '
+          '[partial] numpy dtype / layout semantics are not modelled: that every entry point gives the same numbers for int64/int32/uint16, float32, big-endian, Fortran-ordered, strided, MaskedArray (empty mask / nomask), NDData and Quantity inputs (with units on flux-like outputs only, mixed units rejected) is decided by the sweep on the implementation. '
+          'Tie: process_quantities and calc_total_error vs the Lean model on random unit patterns.',
+  'note': 'Trusted: Lean kernel + standard axioms; AST extractor; hand model tied by differential testing; numpy/astropy container semantics.',
+ },
  'C16': {
   'design_ref': 'DESIGN.md §5 C16',
   'technique': 'Lean 4 theorems on a model of ApertureStats for one position (pixel multiset, statistics, centroid re-basing; overlap geometry from the generated get_overlap_slices) + correspondence and direct-statistics oracle',
